@@ -9,9 +9,12 @@ from ..report import h64
 from ..worker import handle_crash
 
 PROPERTY = "C12"
-RULE = ("(a) matcher core, exhaustive: every glob pattern up to length 3 (quick) / 4 (thorough) "
-        "over {a b _ space - * ? newline} x every text up to length 4 / 5 over {a b A _ space - "
-        "newline e-acute}, for content.body (word semantics), another key (whole-value glob) and "
+RULE = ("(a) matcher core, exhaustive grids: every glob pattern up to length 3 (quick) / 4 (thorough) "
+        "over {a b _ space - * ? newline} x every text up to length 4 (thorough also 3 x 5) over {a b A _ space - "
+        "newline e-acute}; narrow alphabets with longer strings - patterns up to 4 / 5 over {a b space} x "
+        "texts up to 7 / 8 over {a b space} (overlapping and repeated partial occurrences), thorough "
+        "also {a space * ?}^<=4 x {a b space}^<=7 and {a e-acute -}^<=4 x ^<=7; each "
+        "for content.body (word semantics), another key (whole-value glob) and "
         "display names (wildcard-free patterns), plus random longer pattern/text pairs built from "
         "repeated partial matches, adjacent wildcards and multi-byte neighbours; (b) flattening: "
         "random nested events with keys containing '.' and '\\\\', empty objects, arrays, ints at "
@@ -84,20 +87,40 @@ def judge_pair(rep, mode, pat, text, got, replay):
 def matcher_core(ctx, layer):
     rep = ctx.rep
     w = ctx.worker(layer)
-    plen, tlen = (3, 4) if ctx.tier == "quick" else (4, 5)
-    pats = list(strings(PAT_ALPHA, plen))
-    texts = list(strings(TXT_ALPHA, tlen))
+    # wide alphabet, short strings
+    grids = [(PAT_ALPHA, 3, TXT_ALPHA, 4)] if ctx.tier == "quick" else [(PAT_ALPHA, 4, TXT_ALPHA, 4)]
+    if ctx.tier == "thorough" and layer == "rel":
+        grids.append((PAT_ALPHA, 3, TXT_ALPHA, 5))
+    # narrow alphabets, longer strings: repeated and overlapping partial occurrences, rescans after
+    # a rejected occurrence (two word characters and one separator are enough to build them)
+    if ctx.tier == "quick":
+        grids.append((["a", "b", " "], 4, ["a", "b", " "], 7))
+    else:
+        grids.append((["a", "b", " "], 5, ["a", "b", " "], 8))
+        grids.append((["a", " ", "*", "?"], 4, ["a", "b", " "], 7))
+        grids.append((["a", "é", "-"], 4, ["a", "é", "-"], 7))
     pairs = []
     k = 0
-    for p in pats:
-        k += 1
-        if not ctx.mine(k):
-            continue
-        for mode in ("body", "key", "displayname"):
-            if mode == "displayname" and ("*" in p or "?" in p):
+    seen_pats = set()
+    for gi, (pa, plen, ta, tlen) in enumerate(grids):
+        texts = list(strings(ta, tlen))
+        for p in strings(pa, plen):
+            if gi == 0:
+                seen_pats.add(p)
+            elif p in seen_pats and tlen <= grids[0][3]:
                 continue
-            tl = texts if mode == "body" else texts[::3]
-            pairs.append((mode, p, tl))
+            k += 1
+            if not ctx.mine(k):
+                continue
+            for mode in ("body", "key", "displayname"):
+                if mode == "displayname" and ("*" in p or "?" in p):
+                    continue
+                if mode == "key" and gi > 0 and not ("*" in p or "?" in p):
+                    continue
+                tl = texts if mode == "body" else texts[::3] if gi == 0 else texts[::2]
+                pairs.append((mode, p, tl))
+    pats = list(strings(PAT_ALPHA, grids[0][1]))
+    texts = list(strings(TXT_ALPHA, grids[0][3]))
     for mode, p, tl in pairs:
         B = 4000
         for i in range(0, len(tl), B):
